@@ -425,6 +425,109 @@ func unknownInsertion(c *explore.Ctx) {
 	}
 }
 
+// ---- depth ladder: values nested by the sender, in fields the target skips or (thorough) decodes recursively
+
+type deepT struct {
+	A int32   `thrift:"1"`
+	R *deepT  `thrift:"2"`
+	L []deepL `thrift:"3"`
+}
+
+type deepL struct {
+	L []deepL `thrift:"1"`
+}
+
+var ladderDepths = []int{100, 9999, 10000, 10001, 100000, 1000000, 4000000}
+
+func depthLadder(c *explore.Ctx)      { depthLadderBody(c, false) }
+func depthLadderTyped(c *explore.Ctx) { depthLadderBody(c, true) }
+
+func depthLadderBody(c *explore.Ctx, typed bool) {
+	p := protos[c.Choose(3)]
+	var shape int
+	if typed {
+		shape = 4 + c.Choose(2)
+	} else {
+		shape = c.Choose(4)
+	}
+	depth := ladderDepths[c.Choose(len(ladderDepths))]
+	if typed && !c.Thorough() && depth > 100000 {
+		c.Outcome("typed-deep-thorough-only")
+		return
+	}
+	bin := p != spec.Compact
+	var in []byte
+	name := ""
+	fieldHdr := func(id byte, binType, cmpType byte) []byte {
+		if bin {
+			return []byte{binType, 0, id}
+		}
+		return []byte{id<<4 | cmpType}
+	}
+	switch shape {
+	case 0: // unknown field 5: list of lists of ... (each of size 1)
+		name = "unknown field: nested lists"
+		in = fieldHdr(5, 15, 9)
+		for i := 0; i < depth; i++ {
+			if bin {
+				in = append(in, 15, 0, 0, 0, 1)
+			} else {
+				in = append(in, 0x19)
+			}
+		}
+	case 1: // unknown field 5: struct in struct in ...
+		name = "unknown field: nested structs"
+		for i := 0; i < depth; i++ {
+			in = append(in, fieldHdr(5, 12, 12)...)
+		}
+	case 2: // unknown field 5: map<i32, map<i32, ...>>
+		name = "unknown field: nested maps"
+		in = fieldHdr(5, 13, 11)
+		for i := 0; i < depth; i++ {
+			if bin {
+				in = append(in, 8, 13, 0, 0, 0, 1, 0, 0, 0, 7)
+			} else {
+				in = append(in, 1, 0x5b, 14)
+			}
+		}
+	case 3: // declared field 1 (i32) sent as nested sets: skipped in non-strict mode
+		name = "mismatching field: nested sets"
+		in = fieldHdr(1, 14, 10)
+		for i := 0; i < depth; i++ {
+			if bin {
+				in = append(in, 14, 0, 0, 0, 1)
+			} else {
+				in = append(in, 0x1a)
+			}
+		}
+	case 4: // declared recursive field R
+		name = "declared recursive struct field"
+		for i := 0; i < depth; i++ {
+			in = append(in, fieldHdr(2, 12, 12)...)
+		}
+	case 5: // declared recursive list field L
+		name = "declared recursive list-of-struct field"
+		in = fieldHdr(3, 15, 9)
+		for i := 0; i < depth; i++ {
+			if bin {
+				in = append(in, 12, 0, 0, 0, 1, 15, 0, 1)
+			} else {
+				in = append(in, 0x1c, 0x19)
+			}
+		}
+	}
+	var out deepT
+	var err error
+	if pv, ps := explore.Catch(func() { err = thrift.Unmarshal(impl(p), in, &out) }); pv != nil {
+		c.Fail("depth:panic:"+ps+":"+explore.PanicClass(pv), "Unmarshal panics on %s nested %d deep over %s: %v", name, depth, p, pv)
+	} else if err == nil {
+		c.Fail("depth:accepted-truncated:"+proto3(p), "Unmarshal accepts %s nested %d deep over %s although the input stops inside the value", name, depth, p)
+	}
+	c.NontrivialStr("depth", p.String(), name, fmt.Sprint(depth))
+	c.Outcome(fmt.Sprintf("%s typed=%v", proto3(p), typed))
+	c.Case(map[string]any{"protocol": p.String(), "shape": name, "depth": depth, "input_bytes": len(in)})
+}
+
 // ---- unions: a skipped field must not disturb the member decoded so far
 
 type unionT struct {
@@ -774,6 +877,13 @@ func Spec() *explore.Spec {
 			{Name: "truncations", ShardDepth: 2, Body: truncations, Bound: func(string) int { return 1 }, Doc: "valid encodings (struct types of 1-2 fields x id layouts x values x 3 protocols): every prefix must fail with an unexpected-EOF class error (io.EOF for the empty prefix), a trailing byte must be reported, every (position x 256) corruption decodes without panic and within the allocation budget (also in strict mode)"},
 			{Name: "unknown-insertion", ShardDepth: 2, Body: unknownInsertion, Bound: func(string) int { return 1 }, Doc: "one unknown field (ids below/in a gap/above/64+ above the declared ids, 32767) of every thrift type with nested values (20 values, depth 2) inserted at every field boundary of the top-level and nested structs: decoded value unchanged"},
 			{Name: "required-and-strict", ShardDepth: 2, Body: requiredAndStrict, Bound: func(string) int { return 1 }, Doc: "each required field removed -> MissingField naming it; each field sent with each of the other 10 wire types -> TypeMismatch in strict mode, skipped without disturbing the other fields otherwise"},
+			{Name: "depth-ladder", ShardDepth: 3, HangSeconds: 300, MaxWorkers: 8, FatalPerCase: true, Body: depthLadder, Doc: "values nested 100 ... 4,000,000 deep by the sender in a field the target skips (lists, structs, maps in an unknown field; sets in a field of another declared type) x 3 protocols, cut off inside the innermost value: an error, no panic, no stack overflow"},
+			{Name: "depth-ladder-typed", ShardDepth: 3, HangSeconds: 300, MaxWorkers: 8, Body: depthLadderTyped, FatalKey: func(ch []int) string {
+				if len(ch) >= 3 && ch[2] < len(ladderDepths) {
+					return fmt.Sprintf("typed-decode:depth=%d", ladderDepths[ch[2]])
+				}
+				return "typed-decode"
+			}, Doc: "the same ladder for declared recursive struct / list-of-struct fields, which the decoder follows recursively (rungs above 100,000 in the thorough tier only)"},
 			{Name: "union", ShardDepth: 2, Body: unionFamily, Doc: "a struct with a `thrift:\",union\"` field: each member (or none) x an unknown field of every thrift type, or a declared field with another wire type (non-strict), placed before / after / around the member: the member and the union interface keep their values"},
 			{Name: "hostile-sizes", ShardDepth: 2, Body: hostileSizes, Doc: "list/set/map/binary/string sizes replaced by {-1, MinInt32, MaxInt32, 2^20, 2^16, 3, 2^40, 2^28} with 0/2/64/70000 payload bytes present: error, no panic, allocation within 1 MiB + 1024 x len(input)"},
 		},
